@@ -374,4 +374,15 @@ def r6_entry_points(ctx):
         ctx.ob("R6", "BytesStart::attributes|html_attributes", rows == {"attributes": (True, True, False), "html_attributes": (True, True, True)},
                "both accessors iterate over the whole tag content starting at name_len (error positions are tag offsets); they differ only in the html flag: %s" % rows, config=cfg)
 
-RULES = [("R1", r1_table), ("R3", r3_duplicates), ("R4", r4_stays_ended), ("R5", r5_recovery), ("R6", r6_entry_points)]
+def r7_whitespace(ctx):
+    """what separates attributes is XML white space and nothing else (C01 R5: one notion, four characters): a wider
+    set moves key boundaries and recovery points"""
+    import c01
+    n0 = len(ctx.obs)
+    c01.r5_whitespace(ctx)
+    for o in ctx.obs[n0:]:
+        o["site"] = "whitespace:" + o["site"]
+        o["rule"] = "R7"
+
+
+RULES = [("R1", r1_table), ("R3", r3_duplicates), ("R4", r4_stays_ended), ("R5", r5_recovery), ("R6", r6_entry_points), ("R7", r7_whitespace)]
